@@ -106,6 +106,24 @@ def run_cascade(base, fmt, depth, parallel, timeout=120):
     return f"error: {val}"
 
 
+def write_undefined(path, fmt, dtype, ch):
+    """overwrite a leaf file, behind toasty's back, by a tile without a single defined pixel; False if the tile's kind cannot
+    express that (opaque colour)"""
+    if fmt in ("npy", "fits") and np.dtype(dtype).kind == "f":
+        a = np.full((256, 256), np.nan, dtype=dtype)
+        if fmt == "npy":
+            np.save(path, a)
+        else:
+            from astropy.io import fits
+            fits.PrimaryHDU(a).writeto(path, overwrite=True)
+        return True
+    if fmt == "png" and ch == 4:
+        from PIL import Image as PImage
+        PImage.fromarray(np.zeros((256, 256, 4), dtype=np.uint8), "RGBA").save(path)
+        return True
+    return False
+
+
 def main():
     h = Harness("C02")
     from toasty.image import Image, ImageLoader
@@ -148,54 +166,89 @@ def main():
                 if st != "ok":
                     h.violation(f"run:{par}", f"cascade_images({kind}, depth {depth}, parallel={par}) {st}", input={"kind": kind, "depth": depth, "leaves": sorted(leaves), "parallel": par})
                     continue
-                # read everything back in display orientation
-                tiles = {}
-                for lv in range(depth + 1):
-                    for x in range(2 ** lv):
-                        for y in range(2 ** lv):
-                            p = pio.tile_path(Pos(lv, x, y), makedirs=False)
-                            if os.path.exists(p):
-                                with warnings.catch_warnings():
-                                    warnings.simplefilter("ignore")
-                                    tiles[(lv, x, y)] = display(np.array(ImageLoader().load_path(p).asarray()), fmt)
-                results[par] = tiles
-                # ---- the property, level by level from the files on disk
-                bad = None
-                for lv in range(depth - 1, -1, -1):
-                    for x in range(2 ** lv):
-                        for y in range(2 ** lv):
-                            cd = []
-                            for (ix, iy) in ((0, 0), (1, 0), (0, 1), (1, 1)):
-                                t = tiles.get((lv + 1, 2 * x + ix, 2 * y + iy))
-                                if t is not None and t.ndim == 3 and t.shape[2] == 3:      # RGB child enters the RGBA buffer opaque
-                                    t = np.concatenate([t, np.full((256, 256, 1), 255, dtype=np.uint8)], axis=2)
-                                cd.append(t)
-                            want = spec_parent(cd, dtype, ch_buf)
-                            got = tiles.get((lv, x, y))
-                            if (want is None) != (got is None):
-                                bad = f"tile ({lv},{x},{y}) {'exists' if got is not None else 'is missing'} but {'no' if want is None else 'a'} tile is due (children present: {[c is not None for c in cd]})"
-                            elif want is not None:
-                                g = got
-                                # float means: the code averages in the tile's own precision, the oracle in float64;
-                                # a mean over 3 defined values is not exactly representable, so allow a few ulps
-                                tol = 8 * float(np.finfo(g.dtype).eps) if g.dtype.kind == "f" else 0.0
-                                same = (g.shape == want.shape) and (np.allclose(g, want, rtol=tol, atol=0.0, equal_nan=True) if g.dtype.kind == "f" else np.array_equal(g, want))
-                                if not same:
-                                    if g.shape == want.shape:
-                                        ne = ~(np.isclose(g, want, rtol=tol, atol=0.0, equal_nan=True)) if g.dtype.kind == "f" else (g != want)
-                                        idx = tuple(int(v) for v in np.argwhere(ne)[0])
-                                        bad = f"tile ({lv},{x},{y}) pixel {idx}: got {g[idx]}, the block reduction gives {want[idx]} ({int(ne.sum())} values differ)"
-                                    else:
-                                        bad = f"tile ({lv},{x},{y}) has shape {g.shape}, expected {want.shape}"
+                def check_disk(stage):
+                    """read every tile back and compare each parent with the reduction of the children that are on disk now"""
+                    # read everything back in display orientation
+                    tiles = {}
+                    for lv in range(depth + 1):
+                        for x in range(2 ** lv):
+                            for y in range(2 ** lv):
+                                p = pio.tile_path(Pos(lv, x, y), makedirs=False)
+                                if os.path.exists(p):
+                                    with warnings.catch_warnings():
+                                        warnings.simplefilter("ignore")
+                                        tiles[(lv, x, y)] = display(np.array(ImageLoader().load_path(p).asarray()), fmt)
+                    # ---- the property, level by level from the files on disk
+                    bad = None
+                    for lv in range(depth - 1, -1, -1):
+                        for x in range(2 ** lv):
+                            for y in range(2 ** lv):
+                                cd = []
+                                for (ix, iy) in ((0, 0), (1, 0), (0, 1), (1, 1)):
+                                    t = tiles.get((lv + 1, 2 * x + ix, 2 * y + iy))
+                                    if t is not None and t.ndim == 3 and t.shape[2] == 3:      # RGB child enters the RGBA buffer opaque
+                                        t = np.concatenate([t, np.full((256, 256, 1), 255, dtype=np.uint8)], axis=2)
+                                    cd.append(t)
+                                want = spec_parent(cd, dtype, ch_buf)
+                                got = tiles.get((lv, x, y))
+                                if (want is None) != (got is None):
+                                    bad = f"tile ({lv},{x},{y}) {'exists' if got is not None else 'is missing'} but {'no' if want is None else 'a'} tile is due (children present: {[c is not None for c in cd]})"
+                                elif want is not None:
+                                    g = got
+                                    # float means: the code averages in the tile's own precision, the oracle in float64;
+                                    # a mean over 3 defined values is not exactly representable, so allow a few ulps
+                                    tol = 8 * float(np.finfo(g.dtype).eps) if g.dtype.kind == "f" else 0.0
+                                    same = (g.shape == want.shape) and (np.allclose(g, want, rtol=tol, atol=0.0, equal_nan=True) if g.dtype.kind == "f" else np.array_equal(g, want))
+                                    if not same:
+                                        if g.shape == want.shape:
+                                            ne = ~(np.isclose(g, want, rtol=tol, atol=0.0, equal_nan=True)) if g.dtype.kind == "f" else (g != want)
+                                            idx = tuple(int(v) for v in np.argwhere(ne)[0])
+                                            bad = f"tile ({lv},{x},{y}) pixel {idx}: got {g[idx]}, the block reduction gives {want[idx]} ({int(ne.sum())} values differ)"
+                                        else:
+                                            bad = f"tile ({lv},{x},{y}) has shape {g.shape}, expected {want.shape}"
+                                if bad:
+                                    break
                             if bad:
                                 break
                         if bad:
                             break
                     if bad:
-                        break
-                if bad:
-                    h.violation(f"block:{kind}", f"{kind} depth {depth} parallel={par} style={style}: {bad}",
-                                input={"kind": kind, "depth": depth, "leaves": sorted(leaves), "style": style, "parallel": par}, observed=bad)
+                        h.violation(f"block:{kind}" + ("" if stage == "first" else ":" + stage), f"{kind} depth {depth} parallel={par} style={style}" + ("" if stage == "first" else f" [{stage}]") + f": {bad}",
+                                    input={"kind": kind, "depth": depth, "leaves": sorted(leaves), "style": style, "parallel": par, "stage": stage}, observed=bad)
+                    return tiles, bad
+
+                tiles, bad = check_disk("first")
+                results[par] = tiles
+                # ---- history: damage the leaf level of the finished pyramid (delete leaves, replace leaves by entirely
+                # undefined ones written behind toasty's back) and cascade AGAIN over the existing files: parents whose
+                # children are gone or undefined now must disappear, the others must be recomputed
+                if not bad and (ci + par) % 2 == 0:
+                    present = sorted(k for k in tiles if k[0] == depth)
+                    rng.shuffle(present)
+                    ndel = rng.randint(1, max(1, len(present) // 2))
+                    dmg = {"deleted": [], "undefined": []}
+                    for (lv, x, y) in present[:ndel]:
+                        pth = pio.tile_path(Pos(lv, x, y), makedirs=False)
+                        if rng.random() < 0.5 or not write_undefined(pth, fmt, dtype, ch):
+                            os.unlink(pth)
+                            dmg["deleted"].append((x, y))
+                        else:
+                            dmg["undefined"].append((x, y))
+                    # the siblings of one damaged leaf go too, so that a whole quartet is dead
+                    if present:
+                        (lv, x, y) = present[0]
+                        for (sx, sy) in ((x ^ 1, y), (x, y ^ 1), (x ^ 1, y ^ 1)):
+                            pth = pio.tile_path(Pos(lv, sx, sy), makedirs=False)
+                            if os.path.exists(pth):
+                                os.unlink(pth)
+                                dmg["deleted"].append((sx, sy))
+                    st = run_cascade(base, fmt, depth, par)
+                    h.count("recascade", f"{kind}/par{par}")
+                    h.case(("recascade", kind, depth, par, tuple(sorted(leaves)), tuple(dmg["deleted"]), tuple(dmg["undefined"])))
+                    if st != "ok":
+                        h.violation(f"rerun:{par}", f"second cascade_images({kind}, depth {depth}, parallel={par}) over the damaged pyramid {st}", input={"kind": kind, "depth": depth, "damage": dmg})
+                    else:
+                        check_disk(f"re-cascade after deleting leaves {dmg['deleted']} and blanking {dmg['undefined']}")
                 # ---- Lean index map on sampled pixels of one parent (stored orientation)
                 if par == 1 and not bad:
                     cand = [k for k in tiles if k[0] == depth - 1]
